@@ -516,12 +516,20 @@ pub fn f4(thorough: bool) -> Vec<Case> {
         let f = S::For { var: "i".into(), from: lit(int(t, 3)), to: lit(int(t, 1)), by: Some(ulit(int(Ty::DInt, -1))), body: vec![inc("k0")] };
         out.push(case("F4w", format!("for:{}:negative-step-literal", t.name()), prog(vars, vec![f]), 1, false));
     }
-    // FOR with untyped bounds (the common idiom)
+    // FOR with untyped bounds (the common idiom): running, single-iteration and empty ranges;
+    // the control variable is left as the loop leaves it where that value is defined (empty range:
+    // the start value has been assigned, nothing else happened)
     for &t in &INTS {
-        let mut vars = counters(1);
-        vars.push(Decl::new("i", t));
-        let f = S::For { var: "i".into(), from: ulit(int(Ty::DInt, 1)), to: ulit(int(Ty::DInt, 3)), by: None, body: vec![inc("k0")] };
-        out.push(case("F4u", format!("for:{}:untyped-bounds", t.name()), prog(vars, vec![f, assign("i", ulit(int(Ty::DInt, 0)))]), 2, true));
+        for (from, to, shape) in [(1i128, 3i128, "runs"), (1, 1, "once"), (3, 1, "empty")] {
+            let mut vars = counters(1);
+            vars.push(Decl::new("i", t));
+            vars.push(Decl::init("hi", int(t, to)));
+            let f = S::For { var: "i".into(), from: ulit(int(Ty::DInt, from)), to: ulit(int(Ty::DInt, to)), by: None, body: vec![inc("k0")] };
+            out.push(case("F4u", format!("for:{}:untyped-bounds:{shape}", t.name()), prog(vars.clone(), vec![f, assign("i", ulit(int(Ty::DInt, 0)))]), 2, true));
+            // same loop, control variable not overwritten afterwards (tags only) and a variable end bound
+            let f2 = S::For { var: "i".into(), from: ulit(int(Ty::DInt, from)), to: var("hi"), by: None, body: vec![inc("k0")] };
+            out.push(case("F4w", format!("for:{}:untyped-start-variable-end:{shape}", t.name()), prog(vars, vec![f2]), 2, false));
+        }
     }
     // loop kind x control statement x trigger iteration x limit (incl. the iteration at which the
     // loop condition flips), and every (outer, inner) nesting with the control statement inside
